@@ -45,6 +45,8 @@ FileSeq(S) == IF S = {"f1", "f2"} THEN <<"f1", "f2">> ELSE IF S = {"f1"} THEN <<
 \* ------------------------------------------------------------------ property level: a clean build
 \* what a consumer reads of each of its inputs, in $SRCS order: own files first, then dependencies
 SrcItem(s, f) == [kind |-> "src", f |-> f, c |-> s[f]]
+\* the name under which a consumer sees an input: a source file's name, or a target's output name
+NameOf(item) == IF item.kind = "src" THEN <<"src", item.f>> ELSE <<"out", item.t, item.kind, item.n>>
 RECURSIVE Ideal(_, _, _)
 Inputs(s, ds, t) == [i \in 1..Len(FileSeq(ds[t].files)) |-> SrcItem(s, FileSeq(ds[t].files)[i])]
                     \o [i \in 1..Cardinality(ds[t].deps) |-> Ideal(s, ds, SetSeq(ds[t].deps)[i])]
@@ -53,18 +55,21 @@ RECURSIVE Flat(_)
 Flat(ins) == IF ins = <<>> THEN <<>>
              ELSE (IF Head(ins).kind = "group" THEN Flat(Head(ins).args) ELSE <<Head(ins)>>) \o Flat(Tail(ins))
 \* Eval: the output tree of a definition applied to its inputs
-Eval(d, ins0) ==
+Eval(t, d, ins0) ==
   LET ins == Flat(ins0) IN
-  CASE d.kind = "cat"   -> [kind |-> "file", k |-> d.cmd, args |-> ins]
-    [] d.kind = "const" -> [kind |-> "file", k |-> d.cmd, args |-> <<>>]
-    [] d.kind = "first" -> [kind |-> "file", k |-> d.cmd, args |-> IF ins = <<>> THEN <<>> ELSE <<ins[1]>>]
-    [] d.kind = "txt"   -> [kind |-> "text", k |-> d.cmd, args |-> <<>>]
+  CASE d.kind = "cat"   -> [kind |-> "file", t |-> t, n |-> d.on, k |-> d.cmd, args |-> ins]
+    [] d.kind = "const" -> [kind |-> "file", t |-> t, n |-> d.on, k |-> d.cmd, args |-> <<>>]
+    [] d.kind = "first" -> [kind |-> "file", t |-> t, n |-> d.on, k |-> d.cmd, args |-> IF ins = <<>> THEN <<>> ELSE <<ins[1]>>]
+    \* a command whose output depends on the NAMES of its inputs, not their contents
+    [] d.kind = "names" -> [kind |-> "file", t |-> t, n |-> d.on, k |-> d.cmd,
+                            args |-> [i \in 1..Len(ins) |-> [kind |-> "name", of |-> NameOf(ins[i])]]]
+    [] d.kind = "txt"   -> [kind |-> "text", t |-> t, n |-> d.on, k |-> d.cmd, args |-> <<>>]
     \* a directory output with one entry whose NAME is the first source file's content (a rename inside
     \* an output directory when that file is edited) and whose content is constant
-    [] d.kind = "dir"   -> [kind |-> "dir", k |-> d.cmd,
+    [] d.kind = "dir"   -> [kind |-> "dir", t |-> t, n |-> d.on, k |-> d.cmd,
                             args |-> IF ins # <<>> /\ ins[1].kind = "src" THEN <<ins[1]>> ELSE <<>>]
-    [] d.kind = "fg"    -> [kind |-> "group", k |-> "-", args |-> ins]
-Ideal(s, ds, t) == Eval(ds[t], Inputs(s, ds, t))
+    [] d.kind = "fg"    -> [kind |-> "group", t |-> t, n |-> d.on, k |-> "-", args |-> ins]
+Ideal(s, ds, t) == Eval(t, ds[t], Inputs(s, ds, t))
 
 \* a repository is valid when no filegroup collects the same source file twice (plz rejects duplicate outputs)
 SrcNames(items) == [i \in 1..Len(items) |-> IF items[i].kind = "src" THEN items[i].f ELSE "-"]
@@ -79,8 +84,8 @@ ClosureOf(ds, R) == UNION {Closure(ds, t) : t \in R}
 \* what the implementation's hash sees of a tree
 RECURSIVE HashOf(_)
 HashOf(tree) ==
-  IF tree.kind = "src" THEN tree
-  ELSE IF tree.kind = "dir" /\ Flaw_DirNames THEN [kind |-> "dir", k |-> tree.k, args |-> <<>>]
+  IF tree.kind \in {"src", "name"} THEN tree
+  ELSE IF tree.kind = "dir" /\ Flaw_DirNames THEN [kind |-> "dir", t |-> tree.t, n |-> tree.n, k |-> tree.k, args |-> <<>>]
   ELSE [tree EXCEPT !.args = [i \in 1..Len(tree.args) |-> HashOf(tree.args[i])]]
 \* inputs as the build step sees them: current source contents and the dependency outputs in plz-out
 AlgoInputs(o, t) == [i \in 1..Len(FileSeq(defs[t].files)) |-> SrcItem(src, FileSeq(defs[t].files)[i])]
@@ -93,7 +98,7 @@ BuildOne(o, ex, ca, t) ==
       isFg == d.kind = "fg"
       needs == isFg \/ o[t] = Nil \/ o[t].def # d \/ o[t].inH # inH
       hit == {e \in ca : e.t = t /\ e.def = d /\ e.inH = inH}
-      newTree == Eval(d, ins)
+      newTree == Eval(t, d, ins)
       \* moveOutput keeps the existing output when the hashes are equal
       kept == IF o[t] # Nil /\ HashOf(o[t].tree) = HashOf(newTree) THEN o[t].tree ELSE newTree
   IN IF ~needs THEN <<o, ex, ca>>
@@ -105,15 +110,20 @@ BuildOne(o, ex, ca, t) ==
             IF UseCache THEN ca \cup {[t |-> t, def |-> d, inH |-> inH, tree |-> kept]} ELSE ca>>
 
 \* ------------------------------------------------------------------ repositories and edits
-Def(kind, cmd, files, deps) == [kind |-> kind, cmd |-> cmd, files |-> files, deps |-> deps]
+Def(kind, cmd, files, deps) == [kind |-> kind, cmd |-> cmd, files |-> files, deps |-> deps, on |-> "out"]
 InitDefs ==
   IF Shapes = "dirflaw"
   THEN {<<Def("dir", "k0", {"f1"}, {}), Def("cat", "k0", {"f2"}, {1}), Def("cat", "k0", {}, {1, 2})>>}
+  ELSE IF Shapes = "rename"
+  \* a producer whose output file can be renamed (contents unchanged), a consumer of names, a consumer of contents
+  THEN {<<Def("cat", "k0", {"f1"}, {}), Def("names", "k0", {"f2"}, {1}), Def("cat", "k0", {}, {1, 2})>>,
+        <<Def("const", "k0", {}, {}), Def("fg", "k0", {"f1"}, {1}), Def("names", "k0", {}, {2})>>}
   ELSE {<<Def("cat", "k0", {"f1"}, {}), Def("first", "k0", {"f2"}, {1}), Def("cat", "k0", {}, {1, 2})>>,
         <<Def("txt", "k0", {}, {}), Def("fg", "k0", {"f1"}, {1}), Def("cat", "k0", {"f2"}, {2})>>,
         <<Def("const", "k0", {"f1"}, {}), Def("cat", "k0", {"f1", "f2"}, {}), Def("fg", "k0", {}, {1, 2})>>}
-EditKinds == IF Shapes = "dirflaw" THEN {} ELSE {"cat", "const", "fg"}
-Reqs == IF Shapes = "all-top" THEN {{3}} ELSE {{3}, {2}}
+EditKinds == IF Shapes \in {"dirflaw", "rename"} THEN {} ELSE {"cat", "const", "fg"}
+\* the exhaustive one-edit configurations request the top target only; the sampled deeper ones also a middle target
+Reqs == IF MaxEdits = 1 \/ Shapes \in {"all-top", "rename"} THEN {{3}} ELSE {{3}, {2}}
 
 Init == /\ src = [f \in F |-> "c0"] /\ defs \in InitDefs
         /\ out = [t \in T |-> Nil] /\ cache = {} /\ executed = {} /\ edits = 0
@@ -130,13 +140,18 @@ EditKind == \E t \in T, kd \in EditKinds :
                /\ defs[t].kind # kd /\ defs' = [defs EXCEPT ![t].kind = kd] /\ UNCHANGED src
                /\ Edit([act |-> "EditDef", t |-> t, def |-> defs'[t]])
 EditFiles == \E t \in T, S \in SUBSET F :
-               /\ Shapes # "dirflaw" /\ defs[t].files # S
+               /\ Shapes \notin {"dirflaw", "rename"} /\ defs[t].files # S
                /\ defs' = [defs EXCEPT ![t].files = S] /\ UNCHANGED src
                /\ Edit([act |-> "EditDef", t |-> t, def |-> defs'[t]])
 EditDeps == \E t \in {3}, S \in SUBSET {1, 2} :
-               /\ Shapes # "dirflaw" /\ defs[t].deps # S
+               /\ Shapes \notin {"dirflaw", "rename"} /\ defs[t].deps # S
                /\ defs' = [defs EXCEPT ![t].deps = S] /\ UNCHANGED src
                /\ Edit([act |-> "EditDef", t |-> t, def |-> defs'[t]])
+\* renaming an output file without changing what is written into it
+EditOutName == \E t \in {1}, nm \in {"out", "alt"} :
+                 /\ Shapes = "rename" /\ defs[t].on # nm
+                 /\ defs' = [defs EXCEPT ![t].on = nm] /\ UNCHANGED src
+                 /\ Edit([act |-> "EditDef", t |-> t, def |-> defs'[t]])
 DeleteOut == /\ \E t \in T : out[t] # Nil
              /\ out' = [t \in T |-> Nil]
              /\ edits < MaxEdits /\ edits' = edits + 1 /\ hist' = Append(hist, [act |-> "DeletePlzOut"])
@@ -163,7 +178,7 @@ Build(R) ==
                                  mayRun |-> may, algoRan |-> s3[2],
                                  algoOut |-> [t \in cl |-> s3[1][t].tree]])
   /\ UNCHANGED <<src, defs, edits>>
-Next == EditFile \/ EditCmd \/ EditKind \/ EditFiles \/ EditDeps \/ DeleteOut \/ \E R \in Reqs : Build(R)
+Next == EditFile \/ EditCmd \/ EditKind \/ EditFiles \/ EditDeps \/ EditOutName \/ DeleteOut \/ \E R \in Reqs : Build(R)
 Spec == Init /\ [][Next]_vars
 
 \* ------------------------------------------------------------------ properties
